@@ -108,6 +108,15 @@ func (rn *runner) run(sc *scenario, faults []fault) (*result, error) {
 			return nil, err
 		}
 	}
+	for link, target := range sc.Hardlinks {
+		lp := filepath.Join(fsdir, link)
+		if err := os.MkdirAll(filepath.Dir(lp), 0o755); err != nil {
+			return nil, err
+		}
+		if err := os.Link(filepath.Join(fsdir, target), lp); err != nil {
+			return nil, err
+		}
+	}
 	args := make([]string, len(sc.Args))
 	for i, a := range sc.Args {
 		args[i] = strings.ReplaceAll(a, "{FS}", fsdir)
